@@ -94,6 +94,16 @@ static void caseC12(uint64_t, vh::Rng& g)
 	const St U = static_cast<St>(g.range(3, 6));
 	std::unique_ptr<Aut> a(new Aut); RTA s; std::string trace; int L = g.range(20, 60);
 	std::unique_ptr<Aut> copy; RTA copyShadow;
+	std::unique_ptr<Aut> other; RTA otherShadow;   // a separately built automaton that `a` may be ASSIGNED (it stays alive)
+	// one look-up a[q] compared with the shadow (the full views index every state in ascending order; what an
+	// implementation remembers of its last look-up then never varies — seeded change m107)
+	auto probe = [&](Aut& x, const RTA& sh, const char* who) -> bool {
+		St q = g.below(U + 1); std::multiset<RRule> d, ref; auto acc = x[q];
+		for (auto t : acc) { RRule r; r.sym = static_cast<int>(t.GetSymbol()); r.par = t.GetParent(); for (auto c : t.GetChildren()) r.ch.push_back(c); d.insert(r); }
+		for (auto& r : sh.rules) if (r.par == q) ref.insert(r);
+		R->count("single-index-probes");
+		if (d != ref) { R->violation(std::string("C12/") + who + "operator[]/content", "operator[](" + vh::str(q) + ") yields " + vh::str(d.size()) + " rules, expected " + vh::str(ref.size()) + " (single look-up) after: " + trace); return false; }
+		return true; };
 	auto mkRule = [&]() {
 		RRule r; r.sym = static_cast<int>(g.below(4)); size_t ar = r.sym == 0 ? 0 : (r.sym == 1 ? 1 : 2);
 		if (g.chance(1, 8)) ar = g.below(4);          // one symbol number with several arities
@@ -101,7 +111,7 @@ static void caseC12(uint64_t, vh::Rng& g)
 	bool interesting = false;
 	for (int st = 0; st < L; ++st)
 	{
-		int op = static_cast<int>(g.below(16)); R->count("steps");
+		int op = static_cast<int>(g.below(18)); R->count("steps");
 		if (op < 7)
 		{
 			RRule r = mkRule();
@@ -130,12 +140,26 @@ static void caseC12(uint64_t, vh::Rng& g)
 				default: { RRule r = mkRule(); std::vector<size_t> ch(r.ch.begin(), r.ch.end()); t.AddTransition(ch, r.sym, r.par); ts.rules.insert(r); trace += std::string("add") + side + " " + vh::str(r.sym) + "(" + vh::str(r.ch.size()) + ")->" + vh::str(r.par) + ";"; break; }
 			}
 		}
+		else if (op >= 16)
+		{	// the automaton is assigned another, separately built one (assignment is a mutating call too: everything the
+			// object remembers about its earlier rules must go); the source stays alive, the copy keeps the old storage
+			other.reset(new Aut); otherShadow = RTA(); int n = g.range(1, 5);
+			for (int i = 0; i < n; ++i) { RRule r = mkRule(); std::vector<size_t> ch(r.ch.begin(), r.ch.end()); other->AddTransition(ch, r.sym, r.par); otherShadow.rules.insert(r); }
+			if (g.chance(1, 3)) { St q = g.below(U + 1); other->SetStateFinal(q); otherShadow.fin.insert(q); }
+			*a = *other; s = otherShadow; trace += "assign-other(" + vh::str(n) + " rules);"; R->count("assigned-another-automaton");
+		}
 		else continue;
-		if (st + 1 < L && g.chance(1, 4)) { R->count("steps-without-read"); continue; }   // several mutating calls between two reads
+		if (st + 1 < L && g.chance(1, 4))
+		{	// several mutating calls between two full reads; sometimes one single look-up in between
+			R->count("steps-without-read");
+			if (g.chance(1, 2)) { R->phase("single look-up"); if (!probe(*a, s, "")) return; if (copy && g.chance(1, 2) && !probe(*copy, copyShadow, "copy-view/")) return; }
+			continue;
+		}
 		R->desc(trace); R->phase("read views");
 		std::string why;
 		if (!readEq(*a, s, U + 1, &g, why, true)) { R->violation("C12/" + why.substr(0, why.find(' ')) + "/" + (why.find("yields") != std::string::npos ? "content" : "answer"), why + " after: " + trace); return; }
 		if (copy && !readEq(*copy, copyShadow, U + 1, nullptr, why, true)) { R->violation("C12/copy-view/" + why.substr(0, why.find(' ')), why + " (view on a copy) after: " + trace); return; }
+		if (g.chance(1, 2)) { R->phase("single look-up"); if (!probe(*a, s, "")) return; }
 		if (s.rules.size() >= 3 && !s.fin.empty()) interesting = true;
 	}
 	if (interesting) { R->nontrivial(vh::fnv(trace)); if (R->wantSample()) R->sample(trace); }
